@@ -179,9 +179,14 @@ def char2entity(c: str | bytes | bytearray) -> str:
     return '&%s;' % name if name is not None else '&#%d;' % cp
 
 
+# the HTML 4 table has no ``&apos;``, one of the five predefined
+# entities of XML
+name2codepoint = dict(htmlentitydefs.name2codepoint, apos=0x27)
+
+
 def substitute_entity(
     match: re.Match[str],
-    n2cp: Mapping[str, int] = htmlentitydefs.name2codepoint
+    n2cp: Mapping[str, int] = name2codepoint
 ) -> str:
     ent = match.group(3)
 
